@@ -147,6 +147,81 @@ class Threads(Sub):
 
 
 # --------------------------------------------------------------------------
+# the same schedule exploration, but every execution is the FIRST thing a pristine process does
+# (lazy initialisation - imports, tables built on first use - races only then)
+
+NEEDS_ZYGOTE = True
+COLD_PAIRS = [(0, 7), (4, 5), (7, 4)]
+
+
+def cold_execution(payload):
+    """runs in a pristine grandchild of the zygote"""
+    from ..core import Env
+    env = Env()
+    texts = payload['texts']
+    pkgdir = os.path.join(snapshot.snapshot_dir(), 'hotxlfp')
+    if payload.get('solo') is not None:
+        p = make_parser(env)
+        try:
+            return {'out': env.out(p.parse(texts[payload['solo']]))}
+        except Exception as e:
+            return {'out': ['x', type(e).__name__]}
+    ps = [make_parser(env), make_parser(env)]
+    bodies = [lambda p=ps[0]: p.parse(texts[0]), lambda p=ps[1]: p.parse(texts[1])]
+    ex = sched.Execution(bodies, payload['choices'], pkgdir, start=payload['start']).run()
+    outs = []
+    for r in ex.results:
+        outs.append(env.out(r[1]) if r[0] == 'ok' else ['x', type(r[1]).__name__])
+    return {'out': outs, 'ntaken': len(ex.taken), 'points': [list(x) for x in ex.points[:len(payload['choices']) + 1]],
+            'thread_points': min(ex.total_points)}
+
+
+class ThreadsCold(Sub):
+    name = 'c03.threads_cold'
+    rule = ('3 formula pairs x 2 starting threads: every schedule with <= 1 preemption among the first 600 decision points, each '
+            'execution run as the first evaluations of a PRISTINE process (fork server), so that one-time initialisation '
+            'happens under the scheduler; outcomes must equal the solo outcomes of pristine processes; non-trivial = '
+            'schedule with a preemption')
+    min_cases = 100
+    min_nontrivial = 100
+    MAXPTS = 600
+
+    def cases(self, tier, unit):
+        for (i, j) in COLD_PAIRS:
+            for start in (0, 1):
+                for first in range(-1, self.MAXPTS):
+                    yield [i, j, start, first]
+
+    def check(self, env, case):
+        from .. import zygote
+        i, j, start, first = case
+        texts = [TFORMULAS[i], TFORMULAS[j]]
+        cache = env.__dict__.setdefault('_c03cold', {})
+        if (i, j) not in cache:
+            cache[(i, j)] = [zygote.call('hxverif.props.c03', 'cold_execution', {'texts': texts, 'solo': k})['out']
+                             for k in (0, 1)]
+        want = cache[(i, j)]
+        choices = [] if first < 0 else [0] * first + [1]
+        res = zygote.call('hxverif.props.c03', 'cold_execution', {'texts': texts, 'choices': choices, 'start': start})
+        env.evals += 4
+        if first >= 0 and res['ntaken'] <= first:
+            env.note('beyond')
+            return None
+        env.cov['schedules'] = env.cov.get('schedules', 0) + 1
+        env.cov['traces_validated_against_impl'] = env.cov.get('traces_validated_against_impl', 0) + 1
+        if first >= 0:
+            env.nt()
+        env.note('cold')
+        if res['out'] != want:
+            return fail('in a fresh process, threads evaluating %r and %r on two parsers (thread %d first)%s: outcomes %r, '
+                        'solo outcomes (fresh process each) %r' % (
+                            texts[0], texts[1], start,
+                            '' if first < 0 else ', preempted at decision point %d %r' % (first, res['points'][-1:]),
+                            res['out'], want), want, res['out'])
+        return None
+
+
+# --------------------------------------------------------------------------
 # nested (sequential) evaluation
 
 OUTER = ['FN(1)+10', '10+FN(1)*3', 'SUM(FN(1),5)&"z"', 'va+A1', 'IF(FN(1)>1,A1,va)', 'SUM(A1:B2)+FN(2)', 'FN(FN(3))-B7',
@@ -362,4 +437,4 @@ class Bindings(Sub):
         return None
 
 
-SUBS = [Threads(), Nested(), Bindings()]
+SUBS = [Threads(), ThreadsCold(), Nested(), Bindings()]
